@@ -345,13 +345,49 @@ def main(argv=None):
         return 2
     work = [(k, key, prop, a.tier, seed) for k, key in units]
     if a.jobs > 1 and len(work) > 1:
-        ctx = mp.get_context("fork")
-        with ctx.Pool(min(a.jobs, len(work))) as pool:
-            results = pool.map(run_unit, work, chunksize=1)
+        results = run_pool(work, min(a.jobs, len(work)), a.tier)
     else:
         results = [run_unit(w) for w in work]
     results = retry_flaky(prop, a, work, results)
     return report(prop, a, api, results, t0, seed)
+
+
+def run_pool(work, jobs, tier):
+    """pool.map waits forever when a worker process dies (interpreter killed by the kernel, a native extension segfaulting in a
+    bounded check): every unit is submitted separately and, when NO unit has finished for `stall` seconds, the units still
+    outstanding are reported as lost (crash => retried once, then exit 3) instead of hanging the check."""
+    stall = float(os.environ.get("PYVC_STALL_SECONDS", 900 if tier == "quick" else 1500))
+    ctx = mp.get_context("fork")
+    pool = ctx.Pool(jobs)
+    results = [None] * len(work)
+    try:
+        pend = {i: pool.apply_async(run_unit, (w,)) for i, w in enumerate(work)}
+        last = time.time()
+        while pend:
+            done = [i for i, r in pend.items() if r.ready()]
+            for i in done:
+                try:
+                    results[i] = pend.pop(i).get()
+                except BaseException as e:  # noqa
+                    results[i] = _lost(work[i], f"worker lost: {e!r}")
+            if done:
+                last = time.time()
+            elif time.time() - last > stall:
+                for i in list(pend):
+                    results[i] = _lost(work[i], f"worker lost: no unit finished for {stall:.0f}s (worker process died or hung)")
+                    pend.pop(i)
+            else:
+                time.sleep(0.1)
+    finally:
+        pool.terminate()
+        pool.join()
+    return results
+
+
+def _lost(w, why):
+    kind, key = w[0], w[1]
+    return {"kind": kind, "unit": key, "obligations": [], "error": None, "crash": why, "assumed_used": [], "external_used": [],
+            "ufs_used": [], "inlined": [], "paths": 0, "sha": None, "assumed": False}
 
 
 def retry_flaky(prop, a, work, results):
@@ -364,6 +400,9 @@ def retry_flaky(prop, a, work, results):
     lock = json.load(open(lock_path)).get(prop, {}) if os.path.exists(lock_path) else {}
     again = []
     for i, r in enumerate(results):
+        if str(r.get("crash") or "").startswith("worker lost"):
+            again.append(i)
+            continue
         if r.get("assumed") or r.get("kind") == "custom":
             continue
         verdicts = [d.get("verdict") for d in r.get("obligations", [])]
@@ -378,9 +417,7 @@ def retry_flaky(prop, a, work, results):
     os.environ["PYVC_BUDGET_FACTOR"] = "3"
     try:
         redo = [work[i] for i in again]
-        ctx = mp.get_context("fork")
-        with ctx.Pool(min(4, len(redo))) as pool:
-            new = pool.map(run_unit, redo, chunksize=1)
+        new = run_pool(redo, min(4, len(redo)), a.tier)
     finally:
         os.environ.pop("PYVC_BUDGET_FACTOR", None)
     for i, r in zip(again, new):
